@@ -7,6 +7,7 @@ import (
 	"fmt"
 	"net/url"
 	"os"
+	"os/exec"
 	"path/filepath"
 	"regexp"
 	"strconv"
@@ -32,7 +33,11 @@ func init() {
 	}
 	var sb strings.Builder
 	sb.WriteString("w=")
-	for i, a := range os.Args[1:] {
+	args := os.Args[1:]
+	if os.Getenv("VERIF_C21_ARGV0") != "" {
+		args = os.Args
+	}
+	for i, a := range args {
 		if i > 0 {
 			sb.WriteString(",")
 		}
@@ -109,11 +114,65 @@ func verifC21FmtWords(w []string) string {
 var VerifC21Hook func(f []string, helper, hout string, setenv func(keys string)) string
 
 var (
+	verifC21Fast   bool // the compiled C helper is in use
 	verifC21T      *testing.T
 	verifC21Dir    string
 	verifC21Helper string
 	verifC21CodeRe = regexp.MustCompile(`^command exited with code (-?[0-9]+)$`)
 )
+
+// same behaviour as the helper mode of init(): see there
+const verifC21HelperC = `
+#include <stdio.h>
+#include <stdlib.h>
+#include <string.h>
+#include <fcntl.h>
+#include <unistd.h>
+static char *buf; static size_t len, cap;
+static void put(const char *s, size_t n) {
+  if (len + n + 1 > cap) { cap = (len + n + 1) * 2; buf = realloc(buf, cap); if (!buf) exit(203); }
+  memcpy(buf + len, s, n); len += n;
+}
+static void puthex(const char *s) {
+  static const char d[] = "0123456789abcdef";
+  size_t n = strlen(s);
+  if (n == 0) { put("-", 1); return; }
+  for (size_t i = 0; i < n; i++) { char c[2] = { d[(unsigned char)s[i] >> 4], d[(unsigned char)s[i] & 15] }; put(c, 2); }
+}
+static int nib(char c) { return c <= '9' ? c - '0' : c - 'a' + 10; }
+int main(int argc, char **argv) {
+  const char *out = getenv("VERIF_C21_HOUT");
+  if (!out || !*out) return 202;
+  int first = getenv("VERIF_C21_ARGV0") && *getenv("VERIF_C21_ARGV0") ? 0 : 1;
+  put("w=", 2);
+  for (int i = first; i < argc; i++) { if (i > first) put(",", 1); puthex(argv[i]); }
+  put("\n", 1);
+  const char *keys = getenv("VERIF_C21_KEYS");
+  if (!keys || !*keys) put("-", 1);
+  else {
+    const char *p = keys; int n = 0;
+    while (*p) {
+      const char *e = strchr(p, ','); size_t kl = e ? (size_t)(e - p) : strlen(p);
+      char *key = malloc(kl / 2 + 2); size_t k = 0;
+      if (!(kl == 1 && p[0] == '-')) for (size_t i = 0; i + 1 < kl; i += 2) key[k++] = (char)(nib(p[i]) * 16 + nib(p[i + 1]));
+      key[k] = 0;
+      if (n++) put(",", 1);
+      put(p, kl); put(":", 1);
+      const char *v = getenv(key);
+      if (v) puthex(v); else put("unset", 5);
+      free(key);
+      p += kl; if (*p == ',') p++;
+    }
+  }
+  put("\n", 1);
+  int fd = open(out, O_WRONLY | O_APPEND | O_CREAT, 0644);
+  if (fd < 0) return 201;
+  if (write(fd, buf, len) != (ssize_t)len) return 201;
+  close(fd);
+  const char *x = getenv("VERIF_C21_EXIT");
+  return x ? atoi(x) : 0;
+}
+`
 
 func verifC21Setup() {
 	if verifC21Dir != "" {
@@ -128,10 +187,26 @@ func verifC21Setup() {
 	if err != nil {
 		panic(err)
 	}
-	// copy/link the binary to a path without characters special to shellquote / os.Expand
+	// The hook command. Preferably a tiny C program compiled here (starting the 38 MB test binary costs
+	// 0.2 s per hook under load, a small static program a few ms); if no C compiler is available the test
+	// binary itself is used (helper mode in init() above). Both write the same record.
 	verifC21Helper = filepath.Join(d, "helper")
-	if err := os.Symlink(exe, verifC21Helper); err != nil {
-		panic(err)
+	built := false
+	if cc, err := exec.LookPath("cc"); err == nil && os.Getenv("VERIF_C21_NOCC") == "" { // knob: force the fallback
+		src := filepath.Join(d, "helper.c")
+		if os.WriteFile(src, []byte(verifC21HelperC), 0o644) == nil {
+			if out, err := exec.Command(cc, "-O1", "-o", verifC21Helper, src).CombinedOutput(); err == nil {
+				built, verifC21Fast = true, true
+			} else {
+				_ = out
+			}
+		}
+	}
+	if !built {
+		os.Remove(verifC21Helper) //nolint:errcheck
+		if err := os.Symlink(exe, verifC21Helper); err != nil {
+			panic(err)
+		}
 	}
 	if strings.ContainsAny(verifC21Helper, " \t\n'\"\\$") {
 		panic("temporary directory has special characters: " + verifC21Helper)
@@ -149,6 +224,33 @@ func verifC21SetOSEnv(osenv []verifC21KV, extra map[string]string) {
 	for k, v := range extra {
 		os.Setenv(k, v) //nolint:errcheck
 	}
+}
+
+// verifC21Canon rewrites the helper's directory inside the hex fields of a helper report line
+// (`w=<hex>,<hex>` or `<hexK>:<hexV>,…`) to the marker `{D}`.
+func verifC21Canon(line string) string {
+	conv := func(h string) string {
+		if h == "-" || h == "unset" {
+			return h
+		}
+		return verifutil.HexS(strings.ReplaceAll(verifutil.UnHexS(h), verifC21Dir, "{D}"))
+	}
+	pre := ""
+	if strings.HasPrefix(line, "w=") {
+		pre, line = "w=", line[2:]
+	}
+	if line == "" || line == "-" {
+		return pre + line
+	}
+	items := strings.Split(line, ",")
+	for i, it := range items {
+		if k, v, ok := strings.Cut(it, ":"); ok {
+			items[i] = k + ":" + conv(v)
+		} else {
+			items[i] = conv(it)
+		}
+	}
+	return pre + strings.Join(items, ",")
 }
 
 func verifC21Oracle(cmdstr string, dropFirst bool) string {
@@ -186,13 +288,30 @@ func verifC21Exec(op string) string {
 		verifC21SetOSEnv(verifC21ParseEnv(f[3]), nil)
 		return verifutil.HexS(expandEnv(verifutil.UnHexS(f[1]), env))
 
-	case "run":
+	case "run", "prg":
+		// run: the harness prepends the helper's path as the program word.
+		// prg: the program word is part of the op (`prg <programWord> <rest> …`) and references variables;
+		//      in the values `{H}` stands for the helper's path and `{D}` for its directory (substituted here,
+		//      and mapped back to `{D}` in what the helper reports, so that op lines do not depend on the
+		//      temporary directory); the helper also reports argv[0].
+		prg := f[0] == "prg"
+		if prg {
+			f = append([]string{"run", verifutil.HexS(verifutil.UnHexS(f[1]) + " " + verifutil.UnHexS(f[2]))}, f[3:]...)
+		}
 		tmpl := verifutil.UnHexS(f[1])
 		envl := verifC21ParseEnv(f[3])
 		osenvl := verifC21ParseEnv(f[4])
 		code := verifutil.Atoi(f[5])
 		cmdstr := verifC21Helper + " " + tmpl
-		if o := verifC21Oracle(cmdstr, true); o != f[2] {
+		if prg {
+			cmdstr = tmpl
+			for _, l := range [][]verifC21KV{envl, osenvl} {
+				for i := range l {
+					l[i].v = strings.ReplaceAll(strings.ReplaceAll(l[i].v, "{H}", verifC21Helper), "{D}", verifC21Dir)
+				}
+			}
+		}
+		if o := verifC21Oracle(cmdstr, !prg); o != f[2] {
 			return "oracle-mismatch " + o
 		}
 		env := Environment{}
@@ -213,11 +332,15 @@ func verifC21Exec(op string) string {
 		}
 		hout := filepath.Join(verifC21Dir, "out")
 		os.Remove(hout) //nolint:errcheck
-		verifC21SetOSEnv(osenvl, map[string]string{
+		ctl := map[string]string{
 			"VERIF_C21_HOUT": hout,
 			"VERIF_C21_KEYS": strings.Join(keys, ","),
 			"VERIF_C21_EXIT": fmt.Sprint(code),
-		})
+		}
+		if prg {
+			ctl["VERIF_C21_ARGV0"] = "1"
+		}
+		verifC21SetOSEnv(osenvl, ctl)
 
 		p := &Pool{}
 		p.Initialize()
@@ -251,6 +374,9 @@ func verifC21Exec(op string) string {
 			} else {
 				report = "other"
 			}
+		}
+		if prg {
+			lines[0], lines[1] = verifC21Canon(lines[0]), verifC21Canon(lines[1])
 		}
 		return fmt.Sprintf("ran argv=%s env=%s report=%s", lines[0], lines[1], report)
 
@@ -540,6 +666,63 @@ func verifC21TmplWord(r *verifutil.Rand, env, osenv []verifC21KV, hostile bool) 
 	return sb.String()
 }
 
+// prg <programWord> <rest of the command> <split oracle, all words> <env> <osenv> <exit code>
+// In env values `{H}` = path of the helper executable, `{D}` = its directory (see the op).
+func verifC21GenProg(r *verifutil.Rand) string {
+	type variant struct {
+		prog string
+		env  []verifC21KV
+	}
+	vs := []variant{
+		{"$HELPER", []verifC21KV{{"HELPER", "{H}"}}},
+		{"${HELPER}", []verifC21KV{{"HELPER", "{H}"}}},
+		{"${HELPER_DIR}/helper", []verifC21KV{{"HELPER_DIR", "{D}"}}},
+		{"$HELPER_DIR/helper", []verifC21KV{{"HELPER_DIR", "{D}"}}},
+		{"$HELPER_DIR/hel$G1", []verifC21KV{{"HELPER_DIR", "{D}"}, {"G1", "per"}}},
+		{"\"$HELPER_DIR\"/$G1", []verifC21KV{{"HELPER_DIR", "{D}"}, {"G1", "helper"}}},
+		{"$MTX_PATH/help${G2}r", []verifC21KV{{"MTX_PATH", "{D}"}, {"G2", "e"}}},
+		{"'$HELPER'", []verifC21KV{{"HELPER", "{H}"}}},                                       // quoted for the shell splitter only
+		{"$HELPER_DIR/nope$G1", []verifC21KV{{"HELPER_DIR", "{D}"}, {"G1", "x"}}},           // does not exist
+		{"${UNSET_V}/helper", nil},                                                         // "/helper" does not exist
+		{"$HELPER$G1", []verifC21KV{{"HELPER", "{H}"}, {"G1", ""}}},
+	}
+	v := vs[r.Intn(len(vs))]
+	env := append([]verifC21KV(nil), v.env...)
+	used := map[string]bool{}
+	for _, kv := range env {
+		used[kv.k] = true
+	}
+	for _, kv := range verifC21Env(r, false) {
+		if !used[kv.k] {
+			used[kv.k] = true
+			env = append(env, kv)
+		}
+	}
+	osenv := verifC21OSEnv(r)
+	if r.Chance(1, 4) { // an inherited variable of the same name must lose
+		k := "UNSET_V"
+		if len(v.env) > 0 {
+			k = v.env[0].k
+		}
+		dup := false
+		for _, kv := range osenv {
+			dup = dup || kv.k == k
+		}
+		if !dup {
+			osenv = append(osenv, verifC21KV{k, "/nonexistent-verif-c21/inherited"})
+		}
+	}
+	nw := r.Intn(5)
+	words := make([]string, nw)
+	for j := range words {
+		words[j] = verifC21TmplWord(r, env, osenv, false)
+	}
+	rest := strings.Join(words, " ")
+	code := r.Intn(3) * 7
+	return fmt.Sprintf("prg %s %s %s %s %s %d", verifutil.HexS(v.prog), verifutil.HexS(rest),
+		verifC21Oracle(v.prog+" "+rest, false), verifC21FmtEnv(env), verifC21FmtEnv(osenv), code)
+}
+
 // hk <name> <port> w=<groups> <mode> <kind1> <a1> <b1> <c1> <d1> <kind2> <a2> <b2> <c2> <d2>
 // (format and meaning of the columns: harness_x_test.go; a/b of some kinds are oracle columns)
 var verifC21HookPairs = [][2]string{
@@ -605,14 +788,23 @@ func verifC21Gen(r *verifutil.Rand, i int, thorough bool) []string {
 }
 
 func verifC21Gen1(r *verifutil.Rand, i int, thorough bool) []string {
-	// starting a process costs 0.1–0.2 s in the sandbox: 1 real run per 50 cases (each run carries
-	// several words and variables), the rest exercise expandEnv in-process
+	// Density of the ops that start processes: with the compiled C helper a hook costs a few ms (1 run or
+	// program-word case per 25 cases, 1 restarting hook per 50, 1 hook scenario per 80); when the test binary
+	// has to serve as the helper (0.1–0.2 s per start here) five times fewer. The rest exercise expandEnv
+	// in-process.
+	verifC21Setup()
+	d := 1
+	if !verifC21Fast {
+		d = 5
+	}
 	switch {
-	case i%400 == 25: // two overlapping hook invocations on one real path, through the real hooks package;
+	case i%(80*d) == 25: // two overlapping hook invocations on one real path, through the real hooks package;
 		// the kinds rotate (offset by the seed-derived stream so that every pair comes up over a few seeds)
-		return []string{verifC21GenHook(r, i/400+r.Intn(len(verifC21HookPairs)))}
-	case i%125 == 60 || i%250 == 0: // run (every 125th case) / restarting hook observed for 2 runs (every 250th)
-		restart := i%250 == 0
+		return []string{verifC21GenHook(r, i/(80*d)+r.Intn(len(verifC21HookPairs)))}
+	case i%(50*d) == 37*d: // the PROGRAM word references variables (instead of every second plain run)
+		return []string{verifC21GenProg(r)}
+	case i%(25*d) == 12*d || i%(50*d) == 0: // plain run / restarting hook observed for 2 runs
+		restart := i%(50*d) == 0
 		hostile := r.Chance(1, 6) && !restart
 		env := verifC21Env(r, hostile)
 		osenv := verifC21OSEnv(r)
@@ -681,6 +873,8 @@ func verifC21Class(op, impl string) string {
 	switch f[0] {
 	case "reset":
 		return "reset"
+	case "prg":
+		return "prg/" + a[0]
 	case "rst":
 		if strings.Contains(impl, "report=code") {
 			return "rst/ran-twice"
